@@ -122,6 +122,13 @@ struct IsSpan<cntgs::Span<T>> : std::true_type
 
 inline int val_of(int t, int salt, int k, int j) { return ((t * 7 + salt * 13 + k * 5 + j * 3) % 240) + 1; }
 
+inline int valc_of(int code, int k)
+{
+    int d = code;
+    for (int q = 1; q < k; ++q) d /= 3;
+    return (d % 3) + 1;
+}
+
 inline long clampl(long x)
 {
     const long L = 1L << 30;
@@ -649,6 +656,67 @@ struct Driver
         return o.str();
     }
 
+    // ---------------------------------------------------------------- comparison truth tables (C13, C14)
+#ifndef VERIF_NO_CMP
+    template <class A, class B>
+    static std::string cmp_matrix(const char* name, const std::vector<A>& as, const std::vector<B>& bs)
+    {
+        const std::size_t n = as.size();
+        std::ostringstream o;
+        o << "{\"k\":\"" << name << "\"";
+        auto table = [&](const char* opn, auto fn)
+        {
+            o << ",\"" << opn << "\":[";
+            for (std::size_t i = 0; i < n; ++i)
+            {
+                o << (i ? "," : "") << "[";
+                for (std::size_t j = 0; j < n; ++j) o << (j ? "," : "") << (fn(as[i], bs[j]) ? 1 : 0);
+                o << "]";
+            }
+            o << "]";
+        };
+        table("eq", [](const A& x, const B& y) { return x == y; });
+        table("ne", [](const A& x, const B& y) { return x != y; });
+        table("lt", [](const A& x, const B& y) { return x < y; });
+        table("le", [](const A& x, const B& y) { return x <= y; });
+        table("gt", [](const A& x, const B& y) { return x > y; });
+        table("ge", [](const A& x, const B& y) { return x >= y; });
+        o << "}";
+        return o.str();
+    }
+
+    std::string cmp_all(Vec& a, Vec& b)
+    {
+        const Vec& ca = a;
+        const Vec& cb = b;
+        std::vector<typename Vec::reference> R;
+        std::vector<typename Vec::const_reference> C;
+        std::vector<Elem> E;
+        const std::size_t n1 = a.size(), n2 = b.size();
+        E.reserve(n1 + n2);
+        for (std::size_t i = 0; i < n1; ++i)
+        {
+            R.push_back(a[i]);
+            C.push_back(ca[i]);
+            E.emplace_back(ca[i]);
+        }
+        for (std::size_t i = 0; i < n2; ++i)
+        {
+            R.push_back(b[i]);
+            C.push_back(cb[i]);
+            E.emplace_back(cb[i]);
+        }
+        std::ostringstream o;
+        o << "{\"n1\":" << n1 << ",\"n2\":" << n2 << ",\"vv\":[" << (ca == cb) << "," << (ca != cb) << "," << (ca < cb)
+          << "," << (ca <= cb) << "," << (ca > cb) << "," << (ca >= cb) << "," << (cb == ca) << "," << (cb != ca) << ","
+          << (cb < ca) << "," << (cb <= ca) << "," << (cb > ca) << "," << (cb >= ca) << "],\"K\":["
+          << cmp_matrix("rr", R, R) << "," << cmp_matrix("cr", C, R) << "," << cmp_matrix("rc", R, C) << ","
+          << cmp_matrix("cc", C, C) << "," << cmp_matrix("er", E, R) << "," << cmp_matrix("re", R, E) << ","
+          << cmp_matrix("ec", E, C) << "," << cmp_matrix("ee", E, E) << "]}";
+        return o.str();
+    }
+#endif
+
     // ---------------------------------------------------------------- arguments
     template <std::size_t I>
     std::size_t fixed_count_of(int v)
@@ -670,7 +738,7 @@ struct Driver
         }
         else if constexpr (kind == PLAIN)
         {
-            return VT<T>::make(val_of(tag, salt, static_cast<int>(I) + 1, 1));
+            return VT<T>::make(salt < 0 ? valc_of(tag, static_cast<int>(I) + 1) : val_of(tag, salt, static_cast<int>(I) + 1, 1));
         }
         else
         {
@@ -678,7 +746,8 @@ struct Driver
             const std::size_t n = kind == FIXED ? fixed_count_of<I>(v) : static_cast<std::size_t>(vs[I]);
             r.reserve(n);
             for (std::size_t j = 0; j < n; ++j)
-                r.push_back(VT<T>::make(val_of(tag, salt, static_cast<int>(I) + 1, static_cast<int>(j) + 1)));
+                r.push_back(VT<T>::make(salt < 0 ? valc_of(tag, static_cast<int>(I) + 1)
+                                                 : val_of(tag, salt, static_cast<int>(I) + 1, static_cast<int>(j) + 1)));
             return r;
         }
     }
@@ -734,6 +803,7 @@ struct Driver
         long parcap = -1;
         int salt = 0;
         std::string itab = "[]";
+        std::string cmp = "{\"n1\":-1}";
         long fresh = 0;
         bool want_fresh = false;
         bool thrown = false;
@@ -875,6 +945,22 @@ struct Driver
                 std::swap_ranges(b + op.a[0], b + op.a[1], V(op.a[2]).begin() + op.a[3]);
             }
 #endif
+            else if (op.n == "EmplaceC")
+            {
+                if (!(V(v).size() < V(v).capacity())) why = "size()>=capacity()";
+                else
+                {
+                    std::vector<int> vs(op.a.begin() + 1, op.a.end());
+                    vs.push_back(0);
+                    emplace(v, V(v), op.a[0], -1, vs, std::make_index_sequence<N>{});
+                }
+            }
+#ifndef VERIF_NO_CMP
+            else if (op.n == "CmpAll")
+            {
+                cmp = cmp_all(V(v), V(op.a[0]));
+            }
+#endif
             else if (op.n == "WriteItem")
             {
                 write_item(V(v), static_cast<std::size_t>(op.a[0]), op.a[1], op.a[2], op.a[3], op.a[4],
@@ -1005,7 +1091,7 @@ struct Driver
         for (std::size_t i = 0; i < op.a.size(); ++i) o << (i ? "," : "") << op.a[i];
         o << "],\"par\":{\"salt\":" << salt << ",\"cap\":" << parcap << ",\"fresh\":" << fresh << "},\"thrown\":" << (thrown ? 1 : 0)
           << ",\"ret\":" << ret << ",\"canary\":" << (ledger().canary_dead ? 1 : 0) << ",\"sub\":[" << sub
-          << "],\"itab\":" << itab << ",\"obs\":" << all_obs() << ",\"eobs\":" << all_el_obs() << "}";
+          << "],\"itab\":" << itab << ",\"cmp\":" << cmp << ",\"obs\":" << all_obs() << ",\"eobs\":" << all_el_obs() << "}";
         ledger().take_sub();  // projection must not produce events; drop defensively
         out->line(o.str());
         return true;
